@@ -22,7 +22,7 @@ import shutil
 import subprocess
 import typing as T
 
-from harness.core import Ctx, Evidence, Failure, HarnessError, pmap, campaign, shard_seeds, make_scratch
+from harness.core import Ctx, Evidence, Failure, HarnessError, pmap, campaign, shard_seeds, make_scratch, fp
 from harness import refarglist as R
 
 LEVEL = 'exploration'
@@ -541,6 +541,8 @@ def run_case(case: dict, info: T.Optional[dict] = None) -> T.Optional[Failure]:
     """case must be normalised.  The signature is taken at the earliest point where the divergence can be observed:
     with a read after every step if that also fails, otherwise (lazy-only defect) with one extra read placed after the
     earliest step that makes it visible."""
+    if case.get('cls', 'clike') == 'clike' and fp(case)[0] % 2 == 0:
+        other_flavours_see(case)
     try:
         _execute(case, info=info)
     except _Mismatch as m:
@@ -562,6 +564,35 @@ def run_case(case: dict, info: T.Optional[dict] = None) -> T.Optional[Failure]:
             sig = 'base-' + sig
         return Failure(sig + mode, case, f"{case['cls']} init={case['init']} ops={json.dumps(case['ops'])}\n {msg}")
     return None
+
+
+def other_flavours_see(case: dict) -> None:
+    """Mixed-language circumstance: before the list under test is built, argument lists of the OTHER flavours living in
+    the same process (the generic CompilerArgs, and DCompilerArgs) are given the very same argument strings and read.
+    The contract holds for every list on its own, so this must not change what the C-like list does (it would if
+    per-argument classification were shared between the flavours)."""
+    e = get_env()
+    words: T.List[str] = list(case.get('init', []))
+    for op in case['ops']:
+        for x in op[1:]:
+            if isinstance(x, str):
+                words.append(x)
+            elif isinstance(x, list):
+                words.extend(w for w in x if isinstance(w, str))
+    flavours = [e['CompilerArgs']]
+    try:
+        from mesonbuild.compilers.d import DCompilerArgs
+        flavours.append(DCompilerArgs)
+    except Exception:
+        pass
+    for cls in flavours:
+        try:
+            o = cls(e['stub'], [])
+            o += words
+            o += words
+            list(o)
+        except Exception:
+            pass          # the other flavour's own behaviour on these strings is not what is being judged here
 
 
 def case_class(case: dict) -> str:
